@@ -464,6 +464,8 @@ def run_property(prop, tier, seed, replay=None):
         'oracle_selftest': selfinfo,
         'technique': prop.technique,
     }
+    if getattr(prop, 'fuzz_info', None):
+        coverage['atheris_campaign'] = prop.fuzz_info
     if enum_info:
         coverage['enumeration'] = enum_info
         coverage['exhaustive'] = True
